@@ -6,6 +6,7 @@ package main
 import (
 	"fmt"
 	"go/ast"
+	"go/printer"
 	"go/token"
 	"go/types"
 	"math/big"
@@ -150,7 +151,7 @@ func (v *Verifier) evalCall(fr *Frame, st *State, x *ast.CallExpr) Val {
 	case OpaqueVal:
 		panic(unsupportedf(x.Pos(), "call of a function value"))
 	}
-	panic(unsupportedf(x.Pos(), "call of %T", fv))
+	panic(unsupportedf(x.Pos(), "call of %T (callee expression %s)", fv, exprString(x.Fun)))
 }
 
 func unparen(e ast.Expr) ast.Expr {
@@ -1134,5 +1135,15 @@ func (v *Verifier) expandDef(fr *Frame, st *State, def *Contract, x *ast.CallExp
 			}
 		}
 	}()
+	// a definition is closed: its names are its parameters and package-level names only
+	saveScope := fr.scopeAt
+	fr.scopeAt = token.NoPos
+	defer func() { fr.scopeAt = saveScope }()
 	return v.evalSpec(fr, st, def.DefBody)
+}
+
+func exprString(e ast.Expr) string {
+	var sb strings.Builder
+	printer.Fprint(&sb, token.NewFileSet(), e)
+	return sb.String()
 }
